@@ -102,6 +102,15 @@ def box_of(name):
     """float32 box (as biotite stores it) for a cell / integer-box name, returned as float64 values"""
     if name in INT_BOXES:
         return np.array(INT_BOXES[name], dtype=np.float32).astype(np.float64)
+    if name.startswith("rot:"):          # rot:<base>:<cube rotation index>  - the same lattice turned rigidly
+        _, base, ri = name.split(":")
+        return box_of(base) @ np.asarray(ROTS[int(ri)], dtype=np.float64).T
+    if name.startswith("perm:"):         # perm:<base>:<row order>          - the same lattice, rows in another order
+        _, base, pr = name.split(":")
+        return box_of(base)[[int(c) for c in pr]]
+    if name.startswith("skew:"):         # unit-ish box whose a.b straddles is_orthogonal's tolerance 1e-6
+        sk = float(name.split(":")[1])
+        return np.array([[1.5, 0, 0], [sk / 1.5, 2.0, 0], [0, 0, 2.5]], dtype=np.float32).astype(np.float64)
     if name.startswith("o_"):
         ln = [float(x) for x in name[2:].split("_")]
         return np.diag(ln).astype(np.float32).astype(np.float64)
@@ -695,6 +704,9 @@ def run_dispbox(shard, ctx, focus=None):
     table = min_image_table(box)
     kind = "ortho" if ortho else "triclinic"
     nshift = 2 if ctx.tier == "quick" else 3
+    light = bool(shard.get("light"))      # derived boxes: one shift, every fourth f1
+    if light:
+        nshift = 1
     f2i = np.repeat(np.arange(64), len(SH5))
     n2 = np.tile(SH5, (64, 1))
     p2_exact = (FR[f2i] + n2) @ box
@@ -704,6 +716,8 @@ def run_dispbox(shard, ctx, focus=None):
         for f1i in range(64):
             fc = {"shift": si, "f1": f1i, "cls": kind}
             if focus is not None and (focus.get("shift") != si or focus.get("f1") != f1i):
+                continue
+            if light and f1i % 4 != 1:
                 continue
             p1 = f32((FR[f1i] + np.array(P1_SHIFTS[si], dtype=float)) @ box)
             p1d = p1.astype(np.float64)
@@ -1509,6 +1523,500 @@ def run_backbone(shard, ctx, focus=None):
 
 
 # ---------------------------------------------------------------------------
+# dimension audit families: many models, argument order, aliasing, array flavours, edges
+# ---------------------------------------------------------------------------
+MODEL_COUNTS = [1, 2, 3, 10, 100, 1000]
+MODEL_BASES = ["o_3_3_3", "t2", "o_2_5_9", "upper", "t1", "full", "lefthanded"]
+
+
+def model_boxes(m):
+    """m pairwise different boxes: the base palette scaled by 1, 1.125, 1.25, ... (exact in binary)"""
+    return np.stack([box_of(MODEL_BASES[k % len(MODEL_BASES)]) * (1.0 + 0.125 * ((k // len(MODEL_BASES)) % 8))
+                     for k in range(m)])
+
+
+def run_models(shard, ctx, focus=None):
+    """per-model boxes with many models (biotite loops over the models in Python)"""
+    import biotite.structure as struc
+
+    rep = Reporter(ctx, shard)
+    m = shard["m"]
+    n = 5
+    B = model_boxes(m)
+    fc = {"m": m, "cls": "m%d" % m}
+    ctx.journal(json.dumps({"s": shard}))
+    base = shape_bases()
+    X1 = np.stack([1.0 + 0.25 * (base[0][k % SH_M, :n - 1 if n - 1 <= SH_N else SH_N] + 2) / 2.0 for k in range(m)])
+    X2 = np.stack([1.0 + 0.25 * (base[1][(k + 1) % SH_M, :X1.shape[1]] + 2) / 2.0 for k in range(m)])
+    n = X1.shape[1]
+    shifts = np.array(list(itertools.product([-2, -1, 0, 1, 2], repeat=3)))
+    sh1 = shifts[(np.arange(m * n) * 7 + 3) % len(shifts)].reshape(m, n, 3)
+    sh2 = shifts[(np.arange(m * n) * 11 + 5) % len(shifts)].reshape(m, n, 3)
+    W1 = X1 + np.einsum("mak,mkj->maj", sh1.astype(float), B)
+    W2 = X2 + np.einsum("mak,mkj->maj", sh2.astype(float), B)
+    exp = X2 - X1
+    for form in ("ndarray", "object"):
+        a1, a2 = (f32(W1), f32(W2)) if form == "ndarray" else (to_object(W1), to_object(W2))
+        f2 = dict(fc, form=form)
+        d = call(rep, "displacement", f2, struc.displacement, a1, a2, box=f32(B))
+        ctx.ev(m * n, m * n)
+        ctx.count("accepted", m * n)
+        tolv = 2e-5 * (1 + np.abs(B).max())
+        if d is not None:
+            if np.shape(d) != exp.shape or not (np.abs(np.asarray(d, dtype=float) - exp) <= tolv).all():
+                k = first_bad((np.abs(np.asarray(d, dtype=float) - exp) > tolv).any(axis=-1)) if np.shape(d) == exp.shape else 0
+                rep.bad("displacement|value|per_model_boxes", "displacement with per-model boxes differs from the true "
+                        "minimum-image vector", f2, exp.reshape(-1, 3)[k].tolist(),
+                        np.asarray(d).reshape(-1, 3)[k].tolist() if np.shape(d) == exp.shape else list(np.shape(d)),
+                        {"model": int(k // n)})
+        dd = call(rep, "distance", f2, struc.distance, a1, a2, box=f32(B))
+        ctx.ev(m * n, m * n)
+        if dd is not None and (np.shape(dd) != exp.shape[:2] or not
+                               (np.abs(np.asarray(dd, dtype=float) - np.linalg.norm(exp, axis=-1)) <= tolv).all()):
+            rep.bad("distance|value|per_model_boxes", "distance with per-model boxes differs from the minimum-image "
+                    "distance", f2)
+    # index variant on a stack with a per-model box attribute
+    stk = to_object(np.concatenate([W1, W2], axis=1))
+    stk.box = f32(B)
+    idx = np.stack([np.arange(n), np.arange(n) + n], axis=1)
+    di = call(rep, "index_displacement", fc, struc.index_displacement, stk, idx, periodic=True)
+    ctx.ev(m * n, m * n)
+    if di is not None and (np.shape(di) != exp.shape or not (np.abs(np.asarray(di, dtype=float) - exp) <= tolv).all()):
+        rep.bad("index_displacement|value|per_model_boxes", "index_displacement(periodic=True) on a stack with per-model "
+                "boxes differs from the true minimum-image vector", fc)
+    # box helpers with (m,3,3)
+    mv = call(rep, "move_inside_box", fc, struc.move_inside_box, f32(W1), f32(B))
+    ctx.ev(m * n, m * n)
+    if mv is not None:
+        g = np.asarray(mv, dtype=float)
+        ok = g.shape == W1.shape
+        if ok:
+            inv = np.linalg.inv(B)
+            coef = np.einsum("mak,mkj->maj", g - f32(W1).astype(float), inv)
+            fr = np.einsum("mak,mkj->maj", g, inv)
+            ok = (np.abs(coef - np.rint(coef)) < 1e-4).all() and (fr > -1e-4).all() and (fr < 1 + 1e-4).all()
+        if not ok:
+            rep.bad("move_inside_box|value|per_model_boxes", "move_inside_box with per-model boxes: not a lattice shift "
+                    "into the box of the model", fc)
+    fr = call(rep, "coord_to_fraction", fc, struc.coord_to_fraction, f32(W1), f32(B))
+    ctx.ev(m * n, m * n)
+    if fr is not None:
+        want = np.einsum("mak,mkj->maj", f32(W1).astype(float), np.linalg.inv(B))
+        if np.shape(fr) != want.shape or not (np.abs(fr - want) <= 5e-5 * (1 + np.abs(want))).all():
+            rep.bad("coord_to_fraction|value|per_model_boxes", "fractions with per-model boxes are wrong", fc)
+        back = call(rep, "fraction_to_coord", fc, struc.fraction_to_coord, fr, f32(B))
+        if back is not None and not (np.abs(back - f32(W1)) <= 2e-4 * (1 + np.abs(B).max())).all():
+            rep.bad("fraction_to_coord|not_inverse|per_model_boxes", "fraction_to_coord(coord_to_fraction(x)) != x", fc)
+    io = call(rep, "is_orthogonal", fc, struc.is_orthogonal, f32(B))
+    ctx.ev(m, m)
+    if io is not None:
+        want = [box_is_ortho(b) for b in B]
+        if list(map(bool, np.atleast_1d(io))) != want:
+            rep.bad("is_orthogonal|value|per_model_boxes", "is_orthogonal on (m,3,3) boxes is wrong", fc, want[:8],
+                    np.atleast_1d(io).tolist()[:8])
+    ctx.outcome(("models", m))
+
+
+INDEX_DTYPES = ["int64", "int32", "int16", "uint8", "uint64", "strided", "readonly", "fortran", "negative", "list"]
+
+
+def run_order(shard, ctx, focus=None):
+    """argument order: displacement(a,b) == -displacement(b,a), distance(a,b) == distance(b,a), angle(a,b,c) ==
+    angle(c,b,a), dihedral(a,b,c,d) == dihedral(d,c,b,a) - for every shape combination, without and with a box; index
+    arrays in other dtypes / layouts give what the int64 array gives"""
+    import biotite.structure as struc
+
+    rep = Reporter(ctx, shard)
+    bases = shape_bases()
+    funcs = {nm: getattr(struc, nm) for nm in NARGS}
+    boxes = [None, np.diag([5.0, 5.0, 5.0]), box_of("t2")]
+    shifts = np.array(list(itertools.product([-2, -1, 0, 1, 2], repeat=3)))
+    for fname, k in NARGS.items():
+        for combo in itertools.product(SH_FORMS, repeat=k):
+            for bi, box in enumerate(boxes):
+                fc = {"f": fname, "combo": list(combo), "bi": bi, "cls": "%s_%s" % ("box" if bi else "plain", "_".join(combo))}
+                if focus is not None and any(focus.get(x) != fc[x] for x in ("f", "combo", "bi")):
+                    continue
+                ctx.journal(json.dumps({"s": shard, "f": fc}))
+                args, true = [], []
+                for i, c in enumerate(combo):
+                    x = 1.0 + 0.25 * (take_form(bases[i], c) + 2) / 2.0
+                    true.append(x)
+                    if box is not None:
+                        nsh = shifts[(np.arange(x.size // 3) * 7 + 13 * i + bi) % len(shifts)].reshape(x.shape)
+                        x = x + nsh @ box
+                    args.append(f32(x))
+                kw = {} if box is None else {"box": f32(box)}
+                fw = call(rep, fname, fc, funcs[fname], *args, **kw)
+                bw = call(rep, fname, fc, funcs[fname], *args[::-1], **kw)
+                ctx.ev(2, 2)
+                if fw is None or bw is None:
+                    continue
+                fwd, bwd = np.asarray(fw, dtype=float), np.asarray(bw, dtype=float)
+                tol = 4 * EPS * 16 if box is None else 3e-5
+                if fname == "displacement":
+                    good = fwd.shape == bwd.shape and (np.abs(fwd + bwd) <= tol).all()
+                elif fname == "distance":
+                    good = fwd.shape == bwd.shape and (np.abs(fwd - bwd) <= tol).all()
+                else:
+                    _, okm = tb_measure(fname, true)       # undefined textbook value: any value either way
+                    with np.errstate(invalid="ignore"):
+                        good = fwd.shape == bwd.shape and (~okm | (geom.ang_diff(fwd, bwd) <= (1e-3 if fname == "angle" else 2e-3))
+                                                           | (np.isnan(fwd) & np.isnan(bwd))).all()
+                if not good:
+                    rep.bad("%s|depends_on_argument_order|%s" % (fname, fc["cls"]),
+                            "reversing the argument order does not %s the result" %
+                            ("negate" if fname == "displacement" else "preserve"), fc,
+                            np.asarray(fw).reshape(-1)[:6].tolist(), np.asarray(bw).reshape(-1)[:6].tolist())
+                else:
+                    ctx.outcome(("order", fname, combo, bi))
+    # index arrays: dtype / layout flavours
+    X = f32(1.0 + 0.25 * (bases[0] + 2) / 2.0)
+    arr = to_object(X[0])
+    arr.box = f32(np.diag([5.0, 5.0, 5.0]))
+    for fname, k in (("distance", 2), ("displacement", 2), ("angle", 3), ("dihedral", 4)):
+        fn = getattr(struc, "index_" + fname)
+        idx = np.array(list(itertools.product(range(SH_N), repeat=k)), dtype=np.int64)
+        for obj, kw, oname in ((X[0], {}, "ndarray"), (X, {}, "stack_coord"), (arr, {"periodic": True}, "AtomArray_periodic")):
+            ref = call(rep, "index_" + fname, {"cls": "int64"}, fn, obj, idx, **kw)
+            if ref is None:
+                continue
+            for dt in INDEX_DTYPES:
+                fc = {"f": "index_" + fname, "dtype": dt, "obj": oname, "cls": "index_%s" % dt}
+                if focus is not None and any(focus.get(x) != fc[x] for x in ("f", "dtype", "obj")):
+                    continue
+                if dt in ("int64", "int32", "int16", "uint8", "uint64"):
+                    ia = idx.astype(dt)
+                elif dt == "strided":
+                    big = np.zeros((2 * len(idx), k), dtype=np.int64)
+                    big[::2] = idx
+                    ia = big[::2]
+                elif dt == "readonly":
+                    ia = idx.copy()
+                    ia.flags.writeable = False
+                elif dt == "fortran":
+                    ia = np.asfortranarray(idx)
+                elif dt == "negative":
+                    ia = idx - SH_N          # the same atoms addressed from the end
+                else:
+                    ia = idx.tolist()
+                ctx.ev(len(idx), len(idx))
+                ctx.journal(json.dumps({"s": shard, "f": fc}))
+                if dt in ("list", "uint64"):   # documented: ndarray; uint64 + Python int arithmetic is numpy's business
+                    ctx.count("unspecified")
+                    try:
+                        with np.errstate(all="ignore"):
+                            got = fn(obj, ia, **kw)
+                    except Exception:  # noqa: BLE001
+                        ctx.count("unspecified_refused")
+                        continue
+                else:
+                    got = call(rep, "index_" + fname, fc, fn, obj, ia, **kw)
+                    if got is None:
+                        continue
+                if np.shape(got) != np.shape(ref) or not np.array_equal(np.asarray(got), np.asarray(ref), equal_nan=True):
+                    rep.bad("index_%s|depends_on_index_flavour|%s" % (fname, dt),
+                            "the same indices in another dtype / layout give another result", fc)
+                if isinstance(ia, np.ndarray) and not np.array_equal(ia, (idx - SH_N) if dt == "negative" else idx.astype(ia.dtype)):
+                    rep.bad("index_%s|argument_modified|indices" % fname, "the index array was modified", fc)
+
+
+def _flavours(x, with_list=True):
+    """[(name, object)] : the float32 C array x in other flavours (same values)"""
+    x = np.asarray(x, dtype=np.float32)
+    out = [("f64", x.astype(np.float64)), ("fortran", np.asfortranarray(x))]
+    big = np.full((2,) + x.shape if x.ndim == 1 else (2 * x.shape[0],) + x.shape[1:], 9.0, dtype=np.float32)
+    if x.ndim == 1:
+        big = np.full(2 * x.shape[0], 9.0, dtype=np.float32)
+        big[::2] = x
+        out.append(("strided", big[::2]))
+    else:
+        big[::2] = x
+        out.append(("strided", big[::2]))
+    ro = x.copy()
+    ro.flags.writeable = False
+    out.append(("readonly", ro))
+    if np.all(x == np.rint(x)):
+        out.append(("int64", np.rint(x).astype(np.int64)))
+    if with_list:
+        out.append(("list", x.tolist()))
+    return out
+
+
+def audit_calls():
+    """(name, function getter, argument builder) for every anchored function; arguments are float32 C arrays"""
+    import biotite.structure as struc
+
+    # compact geometry (all inside a cube of side 0.5: every minimum image is unique in all boxes used here); Q is
+    # additionally moved by lattice vectors of the box t2, which only the single-box calls use
+    box = f32(box_of("t2"))
+    P = f32(1.0 + 0.25 * (P27[[0, 5, 13, 22, 26, 9, 17]].astype(float) + 1) / 2.0)
+    Q0 = 1.0 + 0.25 * (P27[[3, 8, 14, 20, 1, 25, 11]].astype(float) + 1) / 2.0
+    Q = f32(Q0 + np.array([[1, 0, -2], [0, 0, 0], [-1, 2, 1], [2, -2, 0], [0, 1, 0], [-2, 0, 1], [1, 1, 1]], dtype=float)
+            @ box.astype(float))
+    S = f32(np.stack([P, Q0, P[::-1] + 0.125]))
+    boxes = f32(np.stack([box_of("t2"), box_of("o_3_3_3"), box_of("upper")]))
+    idx2 = np.array([[0, 1], [2, 6], [5, 5]])
+    idx3 = np.array([[0, 1, 2], [6, 3, 1]])
+    idx4 = np.array([[0, 1, 2, 3], [6, 5, 4, 2]])
+    return [
+        ("displacement", struc.displacement, [P, Q], {}), ("displacement_box", struc.displacement, [P, Q], {"box": box}),
+        ("displacement_stack_boxes", struc.displacement, [S, S[::-1].copy()], {"box": boxes}),
+        ("distance", struc.distance, [P, Q], {}), ("distance_box", struc.distance, [P[2], Q], {"box": box}),
+        ("angle", struc.angle, [P, Q, P[::-1].copy()], {}), ("angle_box", struc.angle, [P, Q, P[::-1].copy()], {"box": box}),
+        ("dihedral", struc.dihedral, [P, Q, P[::-1].copy(), Q[::-1].copy()], {}),
+        ("dihedral_box", struc.dihedral, [S, Q, P[::-1].copy(), S[::-1].copy()], {"box": box}),
+        ("index_distance", struc.index_distance, [P, idx2], {}),
+        ("index_displacement_box", struc.index_displacement, [S, idx2], {"periodic": True, "box": boxes}),
+        ("index_angle", struc.index_angle, [P, idx3], {}), ("index_dihedral", struc.index_dihedral, [P, idx4], {}),
+        ("centroid", struc.centroid, [S], {}),
+        ("move_inside_box", struc.move_inside_box, [Q, box], {}), ("move_inside_box_stack", struc.move_inside_box, [S, boxes], {}),
+        ("coord_to_fraction", struc.coord_to_fraction, [Q, box], {}), ("fraction_to_coord", struc.fraction_to_coord, [P, box], {}),
+        ("repeat_box_coord", struc.repeat_box_coord, [P, box], {}), ("repeat_box_coord_stack", struc.repeat_box_coord, [S, boxes, 2], {}),
+        ("remove_pbc_from_coord", struc.remove_pbc_from_coord, [Q, box], {}),
+        ("remove_pbc_from_coord_stack", struc.remove_pbc_from_coord, [S, boxes], {}),
+        ("is_orthogonal", struc.is_orthogonal, [boxes], {}), ("box_volume", struc.box_volume, [boxes], {}),
+        ("unitcell_from_vectors", struc.unitcell_from_vectors, [box], {}),
+        ("translate", struc.translate, [P, f32([1.0, -2.0, 3.5])], {}), ("translate_stack", struc.translate, [S, Q], {}),
+        ("rotate", struc.rotate, [S, f32([0.1, 1.0, 2.5])], {}), ("rotate_centered", struc.rotate_centered, [S, f32([0.1, 1.0, 2.5])], {}),
+        ("rotate_centered_vec", struc.rotate_centered, [P[1], f32([0.1, 1.0, 2.5])], {}),
+        ("rotate_about_axis", struc.rotate_about_axis, [S, f32([1.0, 2.0, 3.0]), 1.0, f32([1.0, 1.0, 1.0])], {}),
+        ("align_vectors", struc.align_vectors, [P, f32([1.0, 0, 0]), f32([0, 1.0, 1.0]), f32([1.0, 1, 1]), f32([2.0, 0, 1])], {}),
+        ("orient_principal_components", struc.orient_principal_components, [P], {}),
+    ]
+
+
+def _tree_arrays(x):
+    if isinstance(x, np.ndarray):
+        return [x]
+    if isinstance(x, (tuple, list)):
+        out = []
+        for y in x:
+            out += _tree_arrays(y)
+        return out
+    return []
+
+
+def _same(a, b, tol=0.0):
+    if isinstance(b, list) and isinstance(a, np.ndarray):
+        b = np.asarray(b, dtype=float)          # a list went in, a list of the same values came out
+    la, lb = _tree_arrays(a), _tree_arrays(b)
+    if not la and not lb:
+        try:
+            return bool(np.allclose(np.asarray(a, dtype=float), np.asarray(b, dtype=float), atol=tol, rtol=0, equal_nan=True))
+        except Exception:  # noqa: BLE001
+            return a == b
+    if len(la) != len(lb):
+        return False
+    return all(x.shape == y.shape and np.allclose(x.astype(float), y.astype(float), atol=tol, rtol=0, equal_nan=True)
+               for x, y in zip(la, lb))
+
+
+def run_alias(shard, ctx, focus=None):
+    """no anchored function modifies its array arguments; results do not share memory with the arguments; calling it a
+    second time gives the same result; the same values in another array flavour give the same result"""
+    import biotite.structure as struc
+
+    rep = Reporter(ctx, shard)
+    for name, fn, args, kw in audit_calls():
+        fc = {"call": name, "cls": name}
+        if focus is not None and focus.get("call") != name:
+            continue
+        ctx.journal(json.dumps({"s": shard, "f": fc}))
+        arrays = [a for a in list(args) + list(kw.values()) if isinstance(a, np.ndarray)]
+        before = [a.copy() for a in arrays]
+        first = call(rep, name.split("_box")[0], fc, fn, *args, **kw)
+        ctx.ev(1, 1)
+        if first is None:
+            continue
+        if any(not np.array_equal(a, b, equal_nan=True) for a, b in zip(arrays, before)):
+            k = [i for i, (a, b) in enumerate(zip(arrays, before)) if not np.array_equal(a, b, equal_nan=True)][0]
+            rep.bad("%s|argument_modified|array_argument_%d" % (name, k), "the call changed one of its array arguments", fc)
+            continue
+        shared = [i for i, a in enumerate(arrays) for r in _tree_arrays(first) if r.size and np.shares_memory(a, r)]
+        if shared:
+            # the statement does not forbid it; count (documented 'copy' for the transform functions only)
+            if name.startswith(("translate", "rotate", "align", "orient")):
+                rep.bad("%s|result_shares_memory_with_argument|array_argument_%d" % (name, shared[0]),
+                        "the documented copy shares memory with the input", fc)
+            else:
+                ctx.count("unspecified")
+                ctx.count("unspecified_result_shares_memory")
+        keep = [r.copy() for r in _tree_arrays(first)]
+        second = call(rep, name, fc, fn, *args, **kw)
+        ctx.ev(1, 1)
+        if second is not None and not (_same(first, second) and all(np.array_equal(a, b, equal_nan=True)
+                                                                    for a, b in zip(keep, _tree_arrays(first)))):
+            rep.bad("%s|second_call_differs|same_arguments" % name, "calling the function again with the same arguments "
+                    "gave another result (or changed the first result)", fc)
+        # object arguments (AtomArray / AtomArrayStack) are not modified either
+        if isinstance(args[0], np.ndarray) and args[0].ndim >= 2 and args[0].shape[-1] == 3 and name not in (
+                "is_orthogonal", "box_volume", "unitcell_from_vectors"):
+            obj = to_object(args[0])
+            if "box" in kw or name.startswith(("move_inside", "coord_to", "fraction_to", "repeat", "remove_pbc")):
+                pass
+            snap = obj.coord.copy()
+            try:
+                with np.errstate(all="ignore"):
+                    r = fn(obj, *args[1:], **kw)
+                ctx.ev(1, 1)
+                if not np.array_equal(obj.coord, snap):
+                    rep.bad("%s|argument_modified|atom_object" % name, "the call changed the coordinates of its AtomArray / "
+                            "AtomArrayStack argument", fc)
+                elif hasattr(r, "coord") and np.shares_memory(r.coord, obj.coord):
+                    rep.bad("%s|result_shares_memory_with_argument|atom_object" % name,
+                            "the returned structure shares its coordinates with the input", fc)
+            except Exception:  # noqa: BLE001
+                ctx.count("unspecified")         # box helpers take coordinates only: objects are not documented
+                ctx.count("unspecified_refused")
+        ctx.outcome(("alias", name))
+    # documented refusals leave their arguments alone
+    P = f32(P27[[0, 5, 13]].astype(float))
+    arr = to_object(P)
+    refusals = [
+        ("index_distance_periodic_without_box", lambda: struc.index_distance(P, np.array([[0, 1]]), periodic=True)),
+        ("orient_two_points", lambda: struc.orient_principal_components(P[:2])),
+        ("align_zero_origin", lambda: struc.align_vectors(P, [0, 0, 0], [1, 0, 0])),
+        ("rotate_about_zero_axis", lambda: struc.rotate_about_axis(P, [0, 0, 0], 1.0)),
+        ("repeat_box_without_box", lambda: struc.repeat_box(arr)),
+        ("remove_pbc_without_box", lambda: struc.remove_pbc(arr)),
+        ("translate_wrong_vector", lambda: struc.translate(P, [1.0, 2.0])),
+        ("rotate_two_angles", lambda: struc.rotate(P, [1.0, 2.0])),
+        ("index_wrong_width", lambda: struc.index_angle(P, np.array([[0, 1]]))),
+    ]
+    snapP, snapA = P.copy(), arr.coord.copy()
+    for nm, fn in refusals:
+        ctx.ev(1, 1)
+        ctx.count("refused")
+        try:
+            fn()
+            rep.bad("%s|accepted|documented_refusal" % nm, "a documented refusal did not happen", {"cls": nm})
+        except Exception:  # noqa: BLE001
+            pass
+        if not (np.array_equal(P, snapP) and np.array_equal(arr.coord, snapA)):
+            rep.bad("%s|argument_modified|refused_call" % nm, "a refused call changed its argument", {"cls": nm})
+            break
+
+
+def run_flavour(shard, ctx, focus=None):
+    """every array argument of every anchored function in other flavours (float64, Fortran order, strided view,
+    read-only, integer where the values are integral, list): same result as for the float32 C array"""
+    rep = Reporter(ctx, shard)
+    for name, fn, args, kw in audit_calls():
+        ref = call(rep, name, {"cls": name}, fn, *args, **kw)
+        if ref is None:
+            continue
+        slots = [("arg%d" % i, i, None) for i, a in enumerate(args) if isinstance(a, np.ndarray) and a.dtype == np.float32]
+        slots += [("kw_%s" % k, None, k) for k, a in kw.items() if isinstance(a, np.ndarray) and a.dtype == np.float32]
+        for sname, ai, ki in slots:
+            orig = args[ai] if ai is not None else kw[ki]
+            for fl, val in _flavours(orig):
+                fc = {"call": name, "slot": sname, "flavour": fl, "cls": "%s_%s" % (sname, fl)}
+                if focus is not None and any(focus.get(x) != fc[x] for x in ("call", "slot", "flavour")):
+                    continue
+                ctx.journal(json.dumps({"s": shard, "f": fc}))
+                a2, k2 = list(args), dict(kw)
+                if ai is not None:
+                    a2[ai] = val
+                else:
+                    k2[ki] = val
+                ctx.ev(1, 1)
+                is_box = ki == "box" or (name.split("_stack")[0] in ("move_inside_box", "coord_to_fraction", "fraction_to_coord",
+                                                                   "repeat_box_coord", "remove_pbc_from_coord") and ai == 1) \
+                    or name in ("is_orthogonal", "box_volume", "unitcell_from_vectors")
+                either = fl == "list" and (is_box or name.startswith(("index_", "move_inside", "coord_to", "fraction_to",
+                                                                      "repeat_box", "remove_pbc")))
+                if either:
+                    ctx.count("unspecified")       # documented argument type: ndarray
+                    try:
+                        with np.errstate(all="ignore"):
+                            got = fn(*a2, **k2)
+                    except Exception:  # noqa: BLE001
+                        ctx.count("unspecified_refused")
+                        continue
+                else:
+                    got = call(rep, name, fc, fn, *a2, **k2)
+                    if got is None:
+                        continue
+                tol = 2e-4 if fl == "f64" else 1e-6
+                if not _same(ref, got, tol):
+                    rep.bad("%s|depends_on_array_flavour|%s" % (name, fl),
+                            "the same values in another array flavour give another result", fc)
+                else:
+                    ctx.outcome(("flav", name, sname, fl))
+
+
+def run_edge(shard, ctx, focus=None):
+    """empty and singleton pieces"""
+    import biotite.structure as struc
+
+    rep = Reporter(ctx, shard)
+    box = f32(box_of("t2"))
+    e3 = np.zeros((0, 3), dtype=np.float32)
+    one = f32([[1.0, 2.0, 3.0]])
+    cases = [
+        ("distance_empty", lambda: struc.distance(e3, e3), (0,)), ("displacement_empty_box", lambda: struc.displacement(e3, e3, box=box), (0, 3)),
+        ("angle_empty", lambda: struc.angle(e3, e3, e3), (0,)), ("dihedral_empty", lambda: struc.dihedral(e3, e3, e3, e3), (0,)),
+        ("index_distance_no_rows", lambda: struc.index_distance(one, np.zeros((0, 2), dtype=int)), (0,)),
+        ("index_dihedral_no_rows_box", lambda: struc.index_dihedral(one, np.zeros((0, 4), dtype=int), periodic=True, box=box), (0,)),
+        ("move_inside_box_empty", lambda: struc.move_inside_box(e3, box), (0, 3)),
+        ("coord_to_fraction_empty", lambda: struc.coord_to_fraction(e3, box), (0, 3)),
+        ("repeat_box_coord_amount0", lambda: struc.repeat_box_coord(one, box, 0)[0], (1, 3)),
+        ("repeat_box_coord_empty", lambda: struc.repeat_box_coord(e3, box)[0], (0, 3)),
+        ("remove_pbc_from_coord_one", lambda: struc.remove_pbc_from_coord(one + 9, box), (1, 3)),
+        ("displacement_one_model_stack", lambda: struc.displacement(one[None], one[None] + 1, box=box[None]), (1, 1, 3)),
+        ("distance_single_vs_single", lambda: np.asarray(struc.distance(one[0], one[0] + 1, box=box)), ()),
+        ("centroid_one", lambda: struc.centroid(one), (3,)),
+        ("translate_empty", lambda: struc.translate(e3, [1, 2, 3]), (0, 3)),
+        ("rotate_centered_one_atom", lambda: struc.rotate_centered(one, [1, 2, 3]), (1, 3)),
+    ]
+    for nm, fn, shape in cases:
+        fc = {"case": nm, "cls": nm}
+        if focus is not None and focus.get("case") != nm:
+            continue
+        ctx.journal(json.dumps({"s": shard, "f": fc}))
+        ctx.ev(1, 1)
+        ctx.count("unspecified")
+        try:
+            with np.errstate(all="ignore"):
+                r = fn()
+        except Exception:  # noqa: BLE001
+            ctx.count("unspecified_refused")      # statement silent on empty input: a clean exception is fine
+            continue
+        if np.shape(r) != shape:
+            rep.bad("%s|bad_shape|empty_or_singleton" % nm, "wrong result shape for an empty / singleton input", fc,
+                    list(shape), list(np.shape(r)))
+            continue
+        if nm == "rotate_centered_one_atom" and not np.allclose(r, one, atol=1e-5):
+            rep.bad("rotate_centered|value|one_atom", "a single atom rotated about its own centroid moved", fc)
+        if nm == "remove_pbc_from_coord_one":
+            res, _ = geom.lattice_residual(np.asarray(r, dtype=float) - (one + 9), box.astype(float))
+            if (res > 1e-3).any():
+                rep.bad("remove_pbc_from_coord|not_lattice_shift|one_atom", "single atom moved by a non-lattice vector", fc)
+        ctx.outcome(("edge", nm))
+    # remove_pbc on one-atom and zero-bond structures, single model stack
+    for n in (1, 2):
+        arr = to_object(f32(np.arange(3 * n, dtype=float).reshape(n, 3) + 7.5))
+        arr.box = box
+        arr.bonds = struc.BondList(n)
+        for obj, nm in ((arr, "array"), (struc.stack([arr]), "one_model_stack")):
+            ctx.ev(1, 1)
+            r = call(rep, "remove_pbc", {"cls": "n%d_%s" % (n, nm)}, struc.remove_pbc, obj)
+            if r is not None:
+                d = np.asarray(r.coord, dtype=float).reshape(-1, 3) - np.asarray(obj.coord, dtype=float).reshape(-1, 3)
+                res, _ = geom.lattice_residual(d, box.astype(float))
+                if r.coord.shape != obj.coord.shape or (res > 1e-3).any():
+                    rep.bad("remove_pbc|not_lattice_shift|%s" % nm, "atoms without bonds moved by a non-lattice vector",
+                            {"cls": nm})
+    # orient_principal_components: 3 points is the documented minimum
+    ctx.ev(1, 1)
+    r = call(rep, "orient_principal_components", {"cls": "three_points"}, struc.orient_principal_components,
+             f32([[0, 0, 0], [1, 0, 0], [0, 2, 0]]))
+    if r is not None and not np.allclose(all_pair_dist(r), all_pair_dist([[0, 0, 0], [1, 0, 0], [0, 2, 0]]), atol=1e-4):
+        rep.bad("orient_principal_components|not_rigid|three_points", "distances changed", {"cls": "three_points"})
+
+
+# ---------------------------------------------------------------------------
 # shards
 # ---------------------------------------------------------------------------
 RUNNERS = {}
@@ -1552,13 +2060,32 @@ def shards(tier, seed):
             out.append({"kind": "backbone", "nres": 3, "part": p, "parts": 16})
     out.append({"kind": "shapes", "mode": "plain"})
     out.append({"kind": "shapes", "mode": "box"})
+    # dimension audit families
+    for m in MODEL_COUNTS:
+        out.append({"kind": "models", "m": m})
+    out.append({"kind": "order"})
+    out.append({"kind": "alias"})
+    out.append({"kind": "flavour"})
+    out.append({"kind": "edge"})
+    rots = range(24) if tier == "thorough" else [(7 * seed + k) % 24 for k in (2, 9, 16, 23)]
+    for base in ("t2", "full", "o_2_5_9", "c0_75_90_110"):
+        for r in rots:
+            out.append({"kind": "dispbox", "box": "rot:%s:%d" % (base, r), "light": True})
+            out.append({"kind": "boxhelpers", "box": "rot:%s:%d" % (base, r)})
+    for base in ("t1", "upper", "c0_60_110_75"):
+        for pr in ("021", "102", "120", "201", "210"):
+            out.append({"kind": "dispbox", "box": "perm:%s:%s" % (base, pr), "light": True})
+    for sk in ("5e-7", "9e-7", "1.1e-6", "2e-6", "1e-5", "1e-3"):
+        out.append({"kind": "dispbox", "box": "skew:" + sk, "light": True})
+        out.append({"kind": "boxhelpers", "box": "skew:" + sk})
     weight = {"pbc": 0, "angle": 1, "dihedral": 2, "generic": 3, "backbone": 3}
     out.sort(key=lambda x: weight.get(x["kind"], 5))
     return out
 
 
 RUNNERS.update({"dist": run_dist, "angle": run_angle, "dihedral": run_dihedral, "generic": run_generic,
-                "shapes": run_shapes, "dispbox": run_dispbox, "boxhelpers": run_boxhelpers, "unitcell": run_unitcell, "pbc": run_pbc, "transform": run_transform, "backbone": run_backbone})
+                "shapes": run_shapes, "dispbox": run_dispbox, "boxhelpers": run_boxhelpers, "unitcell": run_unitcell, "pbc": run_pbc, "transform": run_transform, "backbone": run_backbone,
+                "models": run_models, "order": run_order, "alias": run_alias, "flavour": run_flavour, "edge": run_edge})
 
 
 def run_shard(shard, ctx):
